@@ -44,6 +44,9 @@ SN_CSS = {'mten': 'margin:10', 'gp': 'gap:1.5 2', 'bxsh': 'box-shadow: var(--bxs
 # 'x' is a deliberately malformed user snippet: resolving it raises the parser's own TokenScannerException from inside
 # snippet resolution (i.e. between the removal and the restoration of `text` in markup.parse)
 SN_MK = {'x': 'a["', 'foo': '.foo[bar=baz]', 'link': 'link[foo=bar href]/', 'rep': 'div>ul>li{Hi}*2'}
+# second tables with the same names (same size) but other definitions: a hidden memo with too weak a key would mix them up
+SN_CSS2 = {'mten': 'margin:20', 'gp': 'gap:3', 'bxsh': 'box-shadow:none', 'zz': 'z-index:7'}
+SN_MK2 = {'x': 'b', 'foo': 'i.bar', 'link': 'link[x]', 'rep': 'p*2'}
 
 
 def _m(**kw):
@@ -70,6 +73,7 @@ MK_CFGS = [
     _m(text='foo', snippets=SN_MK),
     _m(text=['x1', 'x2'], snippets=SN_MK, options={'output.reverseAttributes': True, 'output.selfClosingStyle': 'xhtml'}),
     _m(syntax='slim', variables={'charset': 'ru-RU', 'lang': 'ru'}),
+    _m(snippets=SN_MK2),
 ]
 MK_ABBRS = ['ul>li.item$*2', 'a', 'ul>li*', 'div.b>div.-e_m.c', 'x', 'foo[a=b]', 'link:css', 'a)', 'a[b="c', 'label>input',
             'img[src="$#"]*', 'xsl:variable[name=a select=b]>x', '!', 'x>p', '[charset=${charset}]{${lang}}', 'rep+img/', '']
@@ -319,6 +323,14 @@ def gen_independent():
     for c1 in MK_CFGS:
         for a1 in MK_ABBRS:
             yield [_step(a1, c1)], _step('p10+mten', ST_CFGS[7])
+    # stylesheet -> stylesheet without any cache (7 ms per call): default table, the user table, a second user table with
+    # the same names, the user table with other options
+    nc = [ST_CFGS[0], ST_CFGS[7], _s(snippets=SN_CSS2), ST_CFGS[8]]
+    for c1 in nc:
+        for c2 in nc:
+            for a1 in ('mten', 'gp', 'p10', 'zz'):
+                for a2 in ('mten', 'gp', 'p10', 'zz'):
+                    yield [_step(a1, c1)], _step(a2, c2)
 
 
 def _random_step(rnd, shared, allow_nocache_css=False):
@@ -407,7 +419,7 @@ def run(tier, seed):
     run_parallel(c, 'bounded.c08', 'check_history', g_obj, chunk=100)
     out.append(c.done())
     c = Clause('independent-calls', 'B', 'first call and probe share no argument (fresh dicts): markup x markup over the pools, stylesheet -> markup, '
-               'markup -> stylesheet', 'histories of exactly 1 call + probe over the fixed pools', rule_h, exhaustive=True)
+               'markup -> stylesheet, stylesheet -> stylesheet without cache (4 configurations x 4 abbreviations each side)', 'histories of exactly 1 call + probe over the fixed pools', rule_h, exhaustive=True)
     run_parallel(c, 'bounded.c08', 'check_history', g_ind, chunk=300)
     out.append(c.done())
     c = Clause('random-histories', 'B', 'seeded random histories: 0..2 shared caller objects (dict / Config, stylesheet ones with a cache per '
